@@ -227,7 +227,9 @@ fn cmd_c01run(args: &[&str], out: &mut Vec<String>) {
     vm.set_printer(c01_print);
     crate::setup(&o);
     gcv::take_alloc_log();
+    let inv = inv_begin(args[0]);
     let r = std::panic::catch_unwind(std::panic::AssertUnwindSafe(|| vm::interpret(&mut vm, src, None)));
+    inv_end(inv, out);
     match r {
         Ok(r) => {
             crate::emit_result(out, &r);
@@ -257,6 +259,37 @@ fn cmd_c01run(args: &[&str], out: &mut Vec<String>) {
             std::mem::forget(vm);
         }
     }
+}
+
+// opts `inv=1`: hook H4 (per-instruction trace) is switched on for the run and the invariant
+//   "no open upvalue of the running fiber points at or above that fiber's stack top"
+// is evaluated at every instruction boundary:  I <steps checked> <violating steps> [<pc> <opcode> <slot> <stack_len> of the first]
+fn inv_begin(opts: &str) -> bool {
+    let on = opts.split(',').any(|kv| kv == "inv=1");
+    if on {
+        vm::verif_trace::take_trace();
+        vm::verif_trace::set_tracing(true, 400_000);
+    }
+    on
+}
+
+fn inv_end(on: bool, out: &mut Vec<String>) {
+    if !on {
+        return;
+    }
+    vm::verif_trace::set_tracing(false, 0);
+    let trace = vm::verif_trace::take_trace();
+    let mut bad = 0usize;
+    let mut first = String::new();
+    for st in trace.iter() {
+        if let Some(slot) = st.open_upvalues.iter().find(|&&s| s >= st.stack_len as isize) {
+            if bad == 0 {
+                first = format!(" {} {} {} {}", st.pc, st.opcode, slot, st.stack_len);
+            }
+            bad += 1;
+        }
+    }
+    out.push(format!("I {} {}{}", trace.len(), bad, first));
 }
 
 fn host_root(v: &Value) -> Option<Box<dyn Any>> {
@@ -306,6 +339,7 @@ fn cmd_c01seq(args: &[&str], out: &mut Vec<String>) {
     vm.set_printer(c01_print);
     crate::setup(&o);
     gcv::take_alloc_log();
+    let inv = inv_begin(args[0]);
     let r1 = vm::interpret(&mut vm, src1, None);
     crate::emit_result(out, &r1);
     out.push("SNIP 1".to_owned());
@@ -325,6 +359,7 @@ fn cmd_c01seq(args: &[&str], out: &mut Vec<String>) {
         }
     }
     let r2 = vm::interpret(&mut vm, src2, None);
+    inv_end(inv, out);
     crate::emit_result(out, &r2);
     out.append(&mut RECS.with(|r| std::mem::take(&mut *r.borrow_mut())));
     crate::emit_stats(out, &o);
